@@ -29,9 +29,9 @@ Fixpoint ins_nth {A} (n : nat) (y : A) (l : list A) : list A :=
 
 (* ------------------------------------------------------------------ field setters *)
 Definition set_stops (f : list sstop -> list sstop) (t : stour) : stour :=
-  mkSTour (to_vehicle t) (to_type t) (to_shift t) (f (to_stops t)) (to_stat t).
+  mkSTour (to_vehicle t) (to_type t) (to_shift t) (f (to_stops t)) (to_stat t) (to_xload t).
 Definition set_tstat (f : sstat -> sstat) (t : stour) : stour :=
-  mkSTour (to_vehicle t) (to_type t) (to_shift t) (to_stops t) (f (to_stat t)).
+  mkSTour (to_vehicle t) (to_type t) (to_shift t) (to_stops t) (f (to_stat t)) (to_xload t).
 Definition set_tours (f : list stour -> list stour) (S : ssolution) : ssolution :=
   mkSSolution (sl_stat S) (f (sl_tours S)) (sl_unassigned S).
 Definition set_unassigned (f : list (Z * nat) -> list (Z * nat)) (S : ssolution) : ssolution :=
@@ -69,19 +69,19 @@ Definition is_job_act (a : sact) : bool := is_job_kind (sa_kind a).
 (* ------------------------------------------------------------------ problem surgery *)
 Definition set_cap (c : Z) (vt : pvtype) : pvtype :=
   mkPVType (vt_id vt) (vt_vehicles vt) (vt_shifts vt) c (vt_fixed vt) (vt_cd vt) (vt_ct vt) (vt_skills vt)
-           (vt_maxdist vt) (vt_maxdur vt) (vt_toursize vt).
+           (vt_maxdist vt) (vt_maxdur vt) (vt_toursize vt) (vt_xcap vt).
 Definition set_maxdist (x : Z) (vt : pvtype) : pvtype :=
   mkPVType (vt_id vt) (vt_vehicles vt) (vt_shifts vt) (vt_cap vt) (vt_fixed vt) (vt_cd vt) (vt_ct vt) (vt_skills vt)
-           (Some x) (vt_maxdur vt) (vt_toursize vt).
+           (Some x) (vt_maxdur vt) (vt_toursize vt) (vt_xcap vt).
 Definition set_maxdur (x : Z) (vt : pvtype) : pvtype :=
   mkPVType (vt_id vt) (vt_vehicles vt) (vt_shifts vt) (vt_cap vt) (vt_fixed vt) (vt_cd vt) (vt_ct vt) (vt_skills vt)
-           (vt_maxdist vt) (Some x) (vt_toursize vt).
+           (vt_maxdist vt) (Some x) (vt_toursize vt) (vt_xcap vt).
 Definition set_toursize (x : Z) (vt : pvtype) : pvtype :=
   mkPVType (vt_id vt) (vt_vehicles vt) (vt_shifts vt) (vt_cap vt) (vt_fixed vt) (vt_cd vt) (vt_ct vt) (vt_skills vt)
-           (vt_maxdist vt) (vt_maxdur vt) (Some x).
+           (vt_maxdist vt) (vt_maxdur vt) (Some x) (vt_xcap vt).
 (* every vehicle type with this id is changed (type ids are unique in a validated problem) *)
 Definition upd_type (tid : Z) (g : pvtype -> pvtype) (P : pproblem) : pproblem :=
-  mkPProblem (pr_jobs P) (map (fun vt => if vt_id vt =? tid then g vt else vt) (pr_fleet P)) (pr_n P) (pr_dur P) (pr_dist P).
+  mkPProblem (pr_jobs P) (map (fun vt => if vt_id vt =? tid then g vt else vt) (pr_fleet P)) (pr_n P) (pr_dur P) (pr_dist P) (pr_err P).
 
 (* ------------------------------------------------------------------ the breach classes *)
 Inductive mutation :=
